@@ -58,7 +58,7 @@ fn main() {
                     if si % 16 != chunk % 16 {
                         continue;
                     }
-                    for variant in 0..3 {
+                    for variant in 0..4 {
                         let _ = gen::exhaust(sc, variant, budget, n as usize, resizes, |t, hdr| {
                             writeln!(out, "trace {} seed={} profile={} {}", k, seed, pname, hdr).unwrap();
                             for l in &t.lines {
